@@ -7,6 +7,9 @@ sys.path.insert(0, os.path.join(repo, "src"))
 import numpy  # noqa
 import scipy  # noqa
 
+import cr  # noqa
+
+cr.__path__ = [os.path.join(os.path.realpath(repo), "src", "cr")]
 import cr.cube  # noqa
 
 here = os.path.dirname(os.path.dirname(os.path.abspath(__file__)))
